@@ -111,7 +111,12 @@ def build_handlers(table: Optional[Dict[str, Any]], ev: Events, is_async: bool, 
             ev.log.append(['eh', n, key, error.code, request.method, request.id, ev.ctx(context)])
             if observe_cause:
                 # what a handler that maps internal failures to application errors looks at (differential checks only: no model predicts it)
-                ev.log[-1].append(['cause', type(error.__cause__).__name__, type(error).__name__])
+                cause = error.__cause__
+                if isinstance(cause, RuntimeError) and isinstance(cause.__cause__, (StopIteration, StopAsyncIteration)):
+                    # PEP 479: python itself turns a StopIteration leaving a coroutine into RuntimeError(...) from it - a difference
+                    # between plain functions and coroutines made by the language, not by the dispatcher halves
+                    cause = cause.__cause__
+                ev.log[-1].append(['cause', type(cause).__name__, type(error).__name__])
             if kind == 'identity':
                 return error
             if kind == 'annotate':
